@@ -21,6 +21,7 @@ import RsomeV.Drv.ShowTable
 import RsomeV.Drv.AffExpr
 import RsomeV.Drv.DetModel
 import RsomeV.Drv.AffTri
+import RsomeV.Drv.Lmi
 open Lean
 namespace RsomeV.Drv
 /-- every operation of the line protocol -/
@@ -71,5 +72,7 @@ def dispatch (op : String) (j : Json) : Except String Json :=
   | "aff_expr" => opAffExpr j
   | "det_model" => opDetModel j
   | "aff_tri" => opAffTri j
+  | "lmi_dual" => opLmiDual j
+  | "rc_lmi" => opRcLmi j
   | _ => throw s!"unknown op {op}"
 end RsomeV.Drv
